@@ -88,6 +88,7 @@ class ConnectCallee(Contract):
             st.heap.havoc_field(f)
 
 
+@guarded("koi", "hdl21.elab.passes.slices:SliceResolver.elaborate_module")
 def rewrite_obligations():
     key = "hdl21.elab.passes.slices:SliceResolver.elaborate_module"
     ext = loader.extract(key)
